@@ -168,6 +168,19 @@ def run(chk, tier):
         else:
             chk.fail('R4', 'rejects:' + name, fn_loc(fb), 'Builder::build does not reject %s (rejecting conditions: %s)' % (name, sorted(rejects)[:6]),
                      key='R4|rejects|' + name)
+    # accepted ⇒ in range: the rejection must not depend on anything else — every trace of build that returns Ok has decided each bound the state
+    # machine relies on (a rejection that is skipped for some port direction / protocol lets the out-of-range value through for that cell)
+    from ..tables import holds
+    oks = [o for o in outs if vshow(o.value).startswith('Result::Ok')]
+    for name, atom in (('initial_sequence ≤ MAX_INITIAL_SEQUENCE', 'Gt(self.initial_sequence.0, %d)' % MAXINIT), ('first_ttl ≤ MAX_TTL', 'Gt(self.first_ttl.0, %d)' % MAXTTL),
+                       ('max_ttl ≤ MAX_TTL', 'Gt(self.max_ttl.0, %d)' % MAXTTL)):
+        und = [o for o in oks if holds(o.st.decisions, atom) != 0]
+        if oks and not und:
+            chk.ok('R4', 'accepted-implies:' + name, '%d accepting traces, each decided it' % len(oks))
+        else:
+            d = [(vshow(a), v) for a, v, _ in und[0].st.decisions][-4:] if und else []
+            chk.fail('R4', 'accepted-implies:' + name, fn_loc(fb), 'Builder::build accepts a configuration without having established %s (%d of %d accepting traces; last decisions of one: %s): '
+                     'the sequence arithmetic of the state machine relies on it for every configuration' % (name, len(und), len(oks), d), key='R4|accepted-implies|' + name.split(' ')[0])
     fnew = prog.find(r'tracer::Tracer::new$')
     callers = cg.callers(fnew['path'])
     if callers == [fb['path']]:
